@@ -131,6 +131,8 @@ M = [
  ("keep-datetime-shortest-form-correct", "src/value/encode.rs", "                if us != 0 {\n                    w.write_u8(11u8)?;\n                } else {\n                    w.write_u8(7u8)?;\n                }\n                w.write_u16::<LittleEndian>(year)?;\n                w.write_u8(self.month() as u8)?;\n                w.write_u8(self.day() as u8)?;\n                w.write_u8(self.hour() as u8)?;\n                w.write_u8(self.minute() as u8)?;\n                w.write_u8(self.second() as u8)?;", "                let date_only = us == 0 && self.num_seconds_from_midnight() == 0;\n                if us != 0 {\n                    w.write_u8(11u8)?;\n                } else if date_only {\n                    w.write_u8(4u8)?;\n                } else {\n                    w.write_u8(7u8)?;\n                }\n                w.write_u16::<LittleEndian>(year)?;\n                w.write_u8(self.month() as u8)?;\n                w.write_u8(self.day() as u8)?;\n                if date_only {\n                    return Ok(());\n                }\n                w.write_u8(self.hour() as u8)?;\n                w.write_u8(self.minute() as u8)?;\n                w.write_u8(self.second() as u8)?;", [], "binary DATETIME uses the legal 4-byte form for exact midnight (values unchanged)"),
  ("c10-statement-table-recycled-per-thread", "src/lib.rs", "        let mut stmts: HashMap<u32, _> = HashMap::new();", "        struct Keep(HashMap<u32, StatementData>);\n        impl std::ops::Deref for Keep {\n            type Target = HashMap<u32, StatementData>;\n            fn deref(&self) -> &Self::Target {\n                &self.0\n            }\n        }\n        impl std::ops::DerefMut for Keep {\n            fn deref_mut(&mut self) -> &mut Self::Target {\n                &mut self.0\n            }\n        }\n        impl Drop for Keep {\n            fn drop(&mut self) {\n                let m = std::mem::take(&mut self.0);\n                SPARE_STMTS.with(|s| *s.borrow_mut() = Some(m));\n            }\n        }\n        thread_local! {\n            static SPARE_STMTS: std::cell::RefCell<Option<HashMap<u32, StatementData>>> = std::cell::RefCell::new(None);\n        }\n        let mut stmts = Keep(SPARE_STMTS.with(|s| s.borrow_mut().take()).unwrap_or_default());", ["C10"], "the statement table's allocation is recycled between the connections of a thread without being cleared: statements of an earlier connection are executable on the next (canary)"),
  ("keep-statement-table-recycled-cleared", "src/lib.rs", "        let mut stmts: HashMap<u32, _> = HashMap::new();", "        struct Keep(HashMap<u32, StatementData>);\n        impl std::ops::Deref for Keep {\n            type Target = HashMap<u32, StatementData>;\n            fn deref(&self) -> &Self::Target {\n                &self.0\n            }\n        }\n        impl std::ops::DerefMut for Keep {\n            fn deref_mut(&mut self) -> &mut Self::Target {\n                &mut self.0\n            }\n        }\n        impl Drop for Keep {\n            fn drop(&mut self) {\n                let mut m = std::mem::take(&mut self.0);\n                m.clear();\n                SPARE_STMTS.with(|s| *s.borrow_mut() = Some(m));\n            }\n        }\n        thread_local! {\n            static SPARE_STMTS: std::cell::RefCell<Option<HashMap<u32, StatementData>>> = std::cell::RefCell::new(None);\n        }\n        let mut stmts = Keep(SPARE_STMTS.with(|s| s.borrow_mut().take()).unwrap_or_default());", [], "the statement table's allocation is recycled between the connections of a thread, cleared first (the correct version)"),
+ ("keep-over-limit-command-ends-connection", "src/lib.rs", "            self.rw.set_seq(seq.wrapping_add(1));\n            let cmd = commands::parse(&packet)", "            self.rw.set_seq(seq.wrapping_add(1));\n            if packet.len() > 67_108_864 + 16 {\n                return Err(io::Error::new(io::ErrorKind::InvalidData, \"command is larger than max_allowed_packet\").into());\n            }\n            let cmd = commands::parse(&packet)", [], "a command larger than the advertised max_allowed_packet ends the connection (what MySQL does)"),
+ ("keep-over-limit-command-gets-err", "src/lib.rs", "            self.rw.set_seq(seq.wrapping_add(1));\n            let cmd = commands::parse(&packet)", "            self.rw.set_seq(seq.wrapping_add(1));\n            if packet.len() > 67_108_864 + 16 {\n                writers::write_err(ErrorKind::ER_NET_PACKET_TOO_LARGE, &b\"too large\"[..], &mut self.rw)?;\n                self.rw.flush()?;\n                continue;\n            }\n            let cmd = commands::parse(&packet)", [], "a command larger than the advertised max_allowed_packet is answered with a correctly numbered ERR and the connection keeps serving (the correct version of r9-C05)"),
  ("keep-poison-after-null-refusal", "src/resultset.rs", "                if c.colflags.contains(ColumnFlags::NOT_NULL_FLAG) {\n                    return Err(io::Error::new(", "                if c.colflags.contains(ColumnFlags::NOT_NULL_FLAG) {\n                    self.col = usize::MAX - 1;\n                    return Err(io::Error::new(", [], "a RowWriter that refused a NULL is unusable afterwards (every later call fails): no property promises that a row can be continued after a refusal"),
  ("keep-poison-after-type-refusal", "src/resultset.rs", "                v.to_mysql_bin(&mut self.data, c)?;", "                if let Err(e) = v.to_mysql_bin(&mut self.data, c) {\n                    self.col = usize::MAX - 1;\n                    return Err(e);\n                }", [], "a RowWriter that refused a value is unusable afterwards"),
  ("keep-retry-interrupted-flush", "src/packet.rs", "        let res = self.rw.flush();\n        if let Err(ref e) = res {\n            self.failed = Some(e.kind());", "        let mut res = self.rw.flush();\n        while matches!(res, Err(ref e) if e.kind() == io::ErrorKind::Interrupted) {\n            res = self.rw.flush();\n        }\n        if let Err(ref e) = res {\n            self.failed = Some(e.kind());", [], "a flush interrupted by a signal is retried (legal; control for the one-off transport failure cases)"),
